@@ -43,9 +43,14 @@ ChanInv == CA(1)!Exact /\ CA(1)!Distinct
 \* Supply 1 implements the abstract ledger ResAbs: `out` is what borrow blocks in progress and scheduled give-back
 \* helpers account for (OutOf).  Every step of USim is a Take / Give / Change / Forfeit of the ledger or leaves it alone;
 \* on configurations without interrupts no step is a Forfeit, without rchange the sum level + out is constant.
-RA(p) == INSTANCE ResAbs WITH level <- obj.pool[p].level, out <- OutOf(p)
-ResRefines1 == RA(1)!Spec
-ResNoForfeit1 == RA(1)!NoForfeit
-ResConserved1 == RA(1)!Conserved
-ResInv == RA(1)!NonNegative
+\* (the ledger is computed once per state: the properties are written over LET-bound values)
+RA == INSTANCE ResAbs WITH level <- obj.pool[1].level, out <- OutOf(1)
+ResStep(Rel(_, _, _, _)) == LET l == obj.pool[1].level  o == OutOf(1)  l2 == obj'.pool[1].level  o2 == OutOf(1)' IN
+                            (l2 # l \/ o2 # o) => Rel(l, o, l2, o2)
+ResRefines1 == [][ResStep(RA!StepRel)]_vars
+NoForfeitRel(l, o, l2, o2) == o2 # o => RA!Plus(l2, o2) = RA!Plus(l, o)
+ResNoForfeit1 == [][ResStep(NoForfeitRel)]_vars
+ConservedRel(l, o, l2, o2) == RA!Plus(l2, o2) = RA!Plus(l, o)
+ResConserved1 == [][ResStep(ConservedRel)]_vars
+ResInv == RA!NonNegative
 =============================================================================
